@@ -278,6 +278,7 @@ func addStats(a *raftdrv.Stats, b raftdrv.Stats) {
 	}
 	a.Restarts += b.Restarts
 	a.SnapshotsInstalled += b.SnapshotsInstalled
+	a.ReadySnapWithCommitted += b.ReadySnapWithCommitted
 	a.Compactions += b.Compactions
 	a.ConfApplied += b.ConfApplied
 	a.LearnerSeen = a.LearnerSeen || b.LearnerSeen
